@@ -151,3 +151,24 @@ Proof.
   split; [exact finish_event|exact plain_exact].
 Qed.
 Print Assumptions C08_credentials_exact.
+
+(* An AUTH exchange is a function of the AUTH line and of the answer lines of THIS exchange only.
+   The session state has no slot in which an earlier AUTH attempt could leave anything: what the
+   AUTH command does (replies, 334 payload, handler call with its credentials, next mode) is the same in
+   any two states that agree on the five gate bits (AUTH offered, EHLO identity present, authenticated,
+   transaction open, encrypted), whatever happened before - in particular whatever an earlier, refused
+   AUTH line carried as its initial response, in clear text or not - and likewise every answer line
+   (given the mechanism, the challenge and the responses of this exchange); the state it leaves is
+   the state before it, changed only by a 235 the handler kept. *)
+Theorem C08_auth_exchange_independent_of_earlier_attempts :
+  (forall mechs nv st1 st2 arg, gate_view st1 = gate_view st2 ->
+     auth_view (t_command_AUTH mechs nv st1 arg) = auth_view (t_command_AUTH mechs nv st2 arg)) /\
+  (forall nv st1 st2 m resps chal resp, s_encrypted (sv st1) = s_encrypted (sv st2) ->
+     auth_view (auth_response nv st1 m resps chal resp) = auth_view (auth_response nv st2 m resps chal resp)) /\
+  (forall mechs nv st arg,
+     sr_st (t_command_AUTH mechs nv st arg) = st \/
+     exists c, In (TAuth (s_encrypted (sv st)) c (Some 235)) (sr_events (t_command_AUTH mechs nv st arg)) /\
+               sr_st (t_command_AUTH mechs nv st arg) =
+               {| sv := set_authed true (sv st); ex := ex st; ed := set_e_auth (Some (cr_cid c)) (ed st) |}).
+Proof. split; [exact auth_command_independent|split; [exact view_response|exact auth_command_state]]. Qed.
+Print Assumptions C08_auth_exchange_independent_of_earlier_attempts.
